@@ -118,6 +118,10 @@ func SolveAll(obls []*Obligation, timeoutS int, workers int, seed int, prelude s
 		if o.Failed != "" || o.Cover {
 			continue
 		}
+		if o.Kind == "structural" {
+			res[i] = &Result{Obl: o, Status: "trivial", Solver: "enumeration of SSA instructions"}
+			continue
+		}
 		if syntacticallyTrue(o) {
 			res[i] = &Result{Obl: o, Status: "trivial", Solver: "syntactic (goal is among the assumptions)"}
 			continue
@@ -225,6 +229,9 @@ func solveOne(o *Obligation, timeoutS, seed int, prelude string, mu *sync.Mutex,
 	if o.Failed != "" {
 		return &Result{Obl: o, Status: "failed", Output: o.Failed}
 	}
+	if o.Kind == "structural" && o.Goal == True {
+		return &Result{Obl: o, Status: "trivial", Solver: "enumeration of SSA instructions"}
+	}
 	if o.Goal == True && !o.Cover {
 		return &Result{Obl: o, Status: "trivial", Solver: "syntactic"}
 	}
@@ -250,6 +257,9 @@ func solveOne(o *Obligation, timeoutS, seed int, prelude string, mu *sync.Mutex,
 			ga := &Script{Prelude: prelude, Asserts: qf}
 			if !o.Cover {
 				ga.Asserts = append(append([]*Term(nil), qf...), negateSplit(g)...)
+			}
+			if os.Getenv("VC_NOCPROP") == "" {
+				ga.Asserts = ConstProp(ga.Asserts)
 			}
 			if os.Getenv("VC_NONORM") == "" {
 				ga.Asserts = NormalizeQuery(ga.Asserts)
